@@ -40,7 +40,7 @@ def check_kernel(job):
         ex, env, xs, ret, rg, res, val, ovf, zd, kp = encode(arm, k)
     except (symex.Unsupported, ir.ParseError, KeyError) as e:
         return [dict(name='%s[%s]:encode' % (kname, arm), status='inconclusive', s=time.time() - t0, detail='Unsupported: %s' % e)]
-    T = int(os.environ.get('VF_QTIMEOUT', '60'))
+    T = int(os.environ.get('VF_QTIMEOUT', '180'))
     stats = dict(blocks=ex.stats['blocks'], edges=ex.stats['edges'])
     out = []
     W, ps = arith.promoted(bits, signed)
@@ -148,7 +148,7 @@ def check_mul_const(fname):
         sub = lambda e: z3.substitute(e, (b, cb))
         fits = symex.mul_fits(a, cb, signed)
         good = z3.And(sub(rg), sub(ret) == a * cb, (sub(flag) != 0) == z3.Not(fits))
-        r, m, s = solve.check([ov0 == 0, z3.Not(good)], int(os.environ.get('VF_QTIMEOUT', '60')))
+        r, m, s = solve.check([ov0 == 0, z3.Not(good)], int(os.environ.get('VF_QTIMEOUT', '180')))
         d = dict(name='%s[portable,b=%d]: flag <=> product unrepresentable, value = wrapped product' % (fname, c), s=s,
                  status={'unsat': 'proved', 'sat': 'refuted'}.get(r, 'inconclusive'), mandatory=(bits <= 32 or abs(c) <= 7))
         if r == 'sat':
